@@ -244,6 +244,19 @@ class _N(ast.NodeTransformer):
 
     def visit_Assign(self, n):
         self.generic_visit(n)
+        # a[k] = x = v   ->   x = v ; a[k] = x     (v is evaluated once either way; sound when x does not occur in the other targets)
+        if len(n.targets) > 1:
+            import copy
+            for i, t in enumerate(n.targets):
+                others = n.targets[:i] + n.targets[i + 1:]
+                if isinstance(t, ast.Name) and not any(isinstance(x, ast.Name) and x.id == t.id for o in others for x in ast.walk(o)):
+                    first = ast.copy_location(ast.Assign(targets=[t], value=n.value), n)
+                    rest = [ast.copy_location(ast.Assign(targets=[o], value=ast.copy_location(ast.Name(id=t.id, ctx=ast.Load()), n)), n) for o in others]
+                    out = []
+                    for s_ in [first] + rest:
+                        r = self.visit_Assign(s_) if isinstance(s_.value, ast.IfExp) else s_
+                        out.extend(r if isinstance(r, list) else [r])
+                    return out
         # x = A if c else B   ->   if c: x = A  else: x = B      (one evaluation of c either way)
         if isinstance(n.value, ast.IfExp) and len(n.targets) == 1 and isinstance(n.targets[0], ast.Name):
             import copy
